@@ -430,6 +430,32 @@ static void worker_loop (void) {
 /* ---------------------------------------------------------------- server */
 struct child { pid_t pid; int cmd, resp; };
 static struct child W[NW], OBS;
+static int owner[NH];    /* server: which worker holds handle id h (-1: free); handle ids are global */
+
+/* position of the API op name in a worker command (after crash K / crashA K / eintr S prefixes) */
+static int op_pos (char **t, int n, int from) {
+	if (from < n && (!strcmp (t[from], "crash") || !strcmp (t[from], "crashA") || !strcmp (t[from], "eintr"))) return from + 2;
+	return from;
+}
+
+/* is the op acceptable w.r.t. the global handle table?  (the model rejects the others as bad-op) */
+static int op_allowed (char **t, int n, int from, int w) {
+	int p = op_pos (t, n, from);
+	if (p + 1 >= n) return 0;
+	int h = atoi (t[p + 1]);
+	if (t[p + 1][0] < '0' || t[p + 1][0] > '9' || h >= NH) return 0;
+	if (!strncmp (t[p], "new-", 4)) return owner[h] == -1;
+	return owner[h] == w;
+}
+
+static void op_done (char **t, int n, int from, int w, const char *res) {
+	int p = op_pos (t, n, from);
+	if (p + 1 >= n) return;
+	int h = atoi (t[p + 1]);
+	if (h < 0 || h >= NH) return;
+	if (!strncmp (t[p], "new-", 4) && !strncmp (res, "ok", 2)) owner[h] = w;
+	if (!strcmp (t[p], "free") && !strncmp (res, "ok", 2)) owner[h] = -1;
+}
 
 static void spawn (struct child *c) {
 	int a[2], b[2];
@@ -498,7 +524,10 @@ static int collect (struct child *c, const char *tag, char *trace, size_t tn, ch
 	}
 }
 
-static void respawn (int w) { reap (&W[w], 1); spawn (&W[w]); }
+static void respawn (int w) {
+	reap (&W[w], 1); spawn (&W[w]);
+	for (int h = 0; h < NH; ++h) if (owner[h] == w) owner[h] = -1;
+}
 
 static int blocked_in_futex (pid_t p) {
 	char path[64], b[64] = "";
@@ -623,6 +652,8 @@ static void run_par (char **t, int n) {
 	if (n < 6 || semi < 4 || semi + 2 >= n) { puts ("bad-op"); return; }
 	int wa = atoi (t[2]), wb = atoi (t[semi + 1]);
 	if (wa < 0 || wa >= NW || wb < 0 || wb >= NW || wa == wb) { puts ("bad-op"); return; }
+	if (!op_allowed (t, semi, 3, wa) || !op_allowed (t, n, semi + 2, wb) ||
+	    (!strncmp (t[3], "new-", 4) && !strncmp (t[semi + 2], "new-", 4) && atoi (t[4]) == atoi (t[semi + 3]))) { puts ("bad-op"); return; }
 	char ca[LINE] = "gated ", cb[LINE] = "gated ";
 	join_toks (ca + 6, sizeof ca - 6, t, 3, semi);
 	join_toks (cb + 6, sizeof cb - 6, t, semi + 2, n);
@@ -651,6 +682,8 @@ static void run_par (char **t, int n) {
 		snprintf (res[who], 256, st[who] == 'T' ? "TIMEOUT" : "died");
 		respawn (who ? wb : wa);
 	}
+	if (st[0] == 'R') op_done (t, semi, 3, wa, ra);
+	if (st[1] == 'R') op_done (t, n, semi + 2, wb, rb);
 	printf ("%s => %s ; %s\n", trace, ra, rb);
 }
 
@@ -725,6 +758,7 @@ int main (int argc, char **argv) {
 	if (argc >= 5 && !strcmp (argv[1], "stress-sem")) return stress_sem (atoi (argv[2]), atoi (argv[3]), atoi (argv[4]));
 	if (argc >= 4 && !strcmp (argv[1], "stress-shm")) return stress_shm (atoi (argv[2]), atoi (argv[3]));
 	make_names ();
+	for (int h = 0; h < NH; ++h) owner[h] = -1;
 	for (int w = 0; w < NW; ++w) spawn (&W[w]);
 	spawn (&OBS);
 	while (fgets (line, sizeof line, stdin)) {
@@ -739,19 +773,21 @@ int main (int argc, char **argv) {
 			make_names ();
 			for (int w = 0; w < NW; ++w) spawn (&W[w]);
 			spawn (&OBS);
+			for (int h = 0; h < NH; ++h) owner[h] = -1;
 			puts ("ok");
 		} else if (!strcmp (t[0], "par")) run_par (t, n);
 		else {
 			int w = atoi (t[0]);
 			if (t[0][0] < '0' || t[0][0] > '9' || w >= NW || n < 2) puts ("bad-op");
 			else if (!strcmp (t[1], "kill") && n == 2) { respawn (w); puts ("ok"); }
+			else if (!op_allowed (t, n, 1, w)) puts ("bad-op");
 			else {
 				char cmd[LINE], trace[LINE * 2] = "", res[256] = "";
 				join_toks (cmd, sizeof cmd, t, 1, n);
 				send_cmd (&W[w], cmd);
 				int st = collect (&W[w], "", trace, sizeof trace, res, sizeof res);
 				if (st == 'R' && !strcmp (res, "bad-op")) puts ("bad-op");
-				else if (st == 'R') printf ("%s => %s\n", trace, res);
+				else if (st == 'R') { op_done (t, n, 1, w, res); printf ("%s => %s\n", trace, res); }
 				else if (st == 'D') {
 					int crash = !strncmp (t[1], "crash", 5);
 					printf ("%s => %s\n", trace, crash ? "crashed" : "died");
